@@ -46,6 +46,18 @@ CHECKS.update({
   note="math.Pow/math.Mod uninterpreted in the symbolic jobs (grid jobs evaluate them natively); nested constants by the bottom-up argument; sentinel substitution assumes checker/codegen treat literal values opaquely"),
 })
 
+CHECKS.update({
+ "C04": dict(level="model_checking", ref="DESIGN.md 4 C04",
+  text="bounded symbolic execution of the real vm.New/ProcessLogLine/execute (HardCrash on, recovered panics logged by the engine) on the bytecode the working tree's compiler emits for a corpus of programs: one line from an arbitrary metric state, every combination of patterns matching or not, captures as symbolic bytes of the group's class; no panic, pc within the program, every runtime error raised is one of the VM's explicit checked conditions",
+  note="program structure is enumerated (corpus in engine/checks_vm.go: quick 21, thorough 30 programs), values/captures/match outcomes are the solver's; captures <= 2 bytes; regexp engine replaced by a harness match table; strconv.ParseFloat/time.Parse uninterpreted with native refinement"),
+ "C05": dict(level="model_checking", ref="DESIGN.md 4 C05",
+  text="two-run equivalence on the real VM: instance A processes an arbitrary earlier line (symbolic match outcomes and captures) and then the line; instance B is a fresh vm.New on the same bytecode whose metrics were given A's values; the solver shows that metrics (label sets, values, expiry marks, timestamps up to clock skew) and the runtime-error count of the line are identical for every assignment, i.e. nothing but metrics is carried across lines (captures, time register, strptime memo, terminate flag, runtime error)",
+  note="history of one earlier line (the carried state after one line is what the next line sees); corpus as C04 incl. strptime with two layouts, stop, failing conversions, short-circuit || with a capture read in the body; captures <= 1 byte quick, 2 thorough; time.Parse uninterpreted (same function for both instances)"),
+ "C25": dict(level="model_checking", ref="DESIGN.md 4 C25",
+  text="per-unit exactness of the self-monitoring counters on every explored path: log_lines_total[source] moves by exactly the number of lines the LineReader delivered (C15 harness: every byte string, chunking and buffer size in bound, incl. the flushed last fragment); prog_runtime_errors_total[prog] moves by exactly 1 on a line aborted by a runtime error and 0 otherwise (C04 harness)",
+  note="expvar is a counter table in the engine (natively: the real expvar maps); prog_loads_total/prog_unloads_total/prog_load_errors_total (loader) and lines_total/log_count (whole program) are outside this claim"),
+})
+
 NOT_APPLICABLE = {
  "C03": "whole compiler front end on arbitrary bytes: channel-driven lexer, goyacc tables, HM unification over a pointer graph, regexp/syntax - symbolic bytes fork at every character class and reach stdlib parsers that cannot be encoded (DESIGN.md 4 C03)",
  "C17": "behaviour lives in kernel pipe/socket semantics and real goroutine interleavings; a faithful stub would re-implement net (DESIGN.md 4 C17)",
